@@ -1,5 +1,7 @@
 """Contracts for waitress/task.py (C03, C08, C09): Task / ErrorTask / WSGITask with a demonic application
 and a model channel whose write_soon() records the bytes handed over (ghost `wire`)."""
+import re
+
 import z3
 
 from vlib.contract import *
@@ -406,7 +408,8 @@ def install_execute(reg, IDENT, CLREQ):
             it.types = frozenset()
         eng.state.ghost["app_iter"] = it
         fr.env["app_iter"] = it
-    ex.cuts = [Cut("can_close_app_iter = True", [CLREQ, ("C09-not-closed-yet", "closes() == 0"), ("C09-not-handed-over", "not handed_over()"),
+    # the first statement after the application call, however the flag is initialised
+    ex.cuts = [Cut(re.compile(r"^can_close_app_iter\s*="), [CLREQ, ("C09-not-closed-yet", "closes() == 0"), ("C09-not-handed-over", "not handed_over()"),
                                                  ("application-returned", "app_returned()")],
                    {"environ": Opaque("environ")}, init=seg2_init)]
 
